@@ -490,7 +490,7 @@ func ruleParserWellFormed(w *World, r *RuleResult) {
 			if !ok || w.exprOf(f, st.Addr).String() != "&d.Form" {
 				continue
 			}
-			if k, ok := st.Val.(*ssa.Const); ok && k.Int64() == fin {
+			if k, ok := st.Val.(*ssa.Const); ok && ci(k) == fin {
 				good, _ := mustPassFrom(st, func(x ssa.Instruction) bool {
 					c, ok := x.(*ssa.Call)
 					return ok && w.calleeName(c) == "(*Decimal).setExponent"
@@ -569,7 +569,7 @@ func (w *World) formAtReturns(f *ssa.Function, sel func(*ssa.Return) bool, okVal
 				if st, ok := x.(*ssa.Store); ok && w.exprOf(f, st.Addr).String() == "&d.Form" {
 					cur = set{}
 					if k, ok := st.Val.(*ssa.Const); ok {
-						cur[k.Int64()] = true
+						cur[ci(k)] = true
 					} else {
 						cur[-2] = true
 					}
@@ -601,7 +601,7 @@ func (w *World) formAtReturns(f *ssa.Function, sel func(*ssa.Return) bool, okVal
 			if st, ok := x.(*ssa.Store); ok && w.exprOf(f, st.Addr).String() == "&d.Form" {
 				cur = set{}
 				if k, ok := st.Val.(*ssa.Const); ok {
-					cur[k.Int64()] = true
+					cur[ci(k)] = true
 				} else {
 					cur[-2] = true
 				}
